@@ -226,11 +226,25 @@ func randomProgram(r *rand.Rand, target string) program {
 					}
 				}
 			case "km":
-				ops = append(ops, schedOp{"lock", []int{k}}, schedOp{"unlock", []int{k}})
-			case "krw":
-				if r.Intn(2) == 0 {
+				switch r.Intn(6) {
+				case 0: // ClearKey of a key nobody holds or awaits (never used otherwise): drives the map's delete / miss / promotion paths
+					ops = append(ops, schedOp{"clear", []int{100 + r.Intn(4)}})
+				case 1:
+					ops = append(ops, schedOp{"trylock", []int{k}}, schedOp{"unlock?", []int{k}})
+				default:
 					ops = append(ops, schedOp{"lock", []int{k}}, schedOp{"unlock", []int{k}})
-				} else {
+				}
+			case "krw":
+				switch r.Intn(8) {
+				case 0:
+					ops = append(ops, schedOp{"clear", []int{100 + r.Intn(4)}})
+				case 1:
+					ops = append(ops, schedOp{"trylock", []int{k}}, schedOp{"unlock?", []int{k}})
+				case 2:
+					ops = append(ops, schedOp{"tryrlock", []int{k}}, schedOp{"runlock?", []int{k}})
+				case 3, 4:
+					ops = append(ops, schedOp{"lock", []int{k}}, schedOp{"unlock", []int{k}})
+				default:
 					ops = append(ops, schedOp{"rlock", []int{k}}, schedOp{"runlock", []int{k}})
 				}
 			}
@@ -309,6 +323,9 @@ func catalogue(target string) []program {
 			{{o("lock", 1), o("unlock", 1)}, {o("trylock", 1), o("unlock?", 1)}},
 			{{o("lock", 1), o("unlock", 1)}, {o("lock", 1), o("unlock", 1)}, {o("lock", 1), o("unlock", 1)}},
 			{{o("lock", 1), o("lock", 2), o("unlock", 2), o("unlock", 1)}, {o("lock", 2), o("unlock", 2)}},
+			// ClearKey of never-seen keys racing first uses while another key is held: the key table must survive
+			{{o("lock", 1), o("clear", 9), o("trylock", 1), o("unlock?", 1), o("unlock", 1)}, {o("lock", 2), o("unlock", 2), o("clear", 8)}, {o("clear", 7), o("trylock", 1), o("unlock?", 1)}},
+			{{o("lock", 1), o("lock", 2), o("unlock", 2)}, {o("clear", 9)}, {o("clear", 8), o("clear", 7), o("trylock", 1), o("unlock?", 1)}},
 		}
 	case "krw":
 		return []program{
